@@ -116,7 +116,7 @@ def curvature(z, cx, cy):
 
 
 HILLSHADE_ATOL = 1e-5   # every step of the shading formula is float32: ~20 operations on quantities <= 2*pi, each <= 1 ulp32
-                        # absolute (1.2e-7 .. 5e-7) => < 5e-6 on the [0,1] result; measured max 1.3e-6 over 2e5 cells
+                        # absolute (1.2e-7 .. 5e-7) => < 5e-6 on the [0,1] result; measured max 3.0e-7 over 1.1e5 cells
 
 
 def hillshade(z, azimuth, altitude):
